@@ -623,7 +623,11 @@ class F:
         `stops` passes one of the nodes `through`: the disjunction of the literal sets of those paths."""
         through = set(through)
         terms = []
-        for lits, nodes, end in self.region_paths(start_edge, stops):
+        paths = self.region_paths(start_edge, stops)
+        normal = [(lits, nodes, end) for lits, nodes, end in paths if end != self.g.raise_exit]
+        if normal and all(through & set(nodes) for lits, nodes, end in normal):
+            return ast.Constant(value=True)  # every iteration that does not raise passes: guards that raise are not a filter
+        for lits, nodes, end in paths:
             if through & set(nodes):
                 parts = [M.pat(k) if tv else ast.UnaryOp(op=ast.Not(), operand=M.pat(k)) for k, tv in lits]
                 terms.append(ast.Constant(value=True) if not parts else parts[0] if len(parts) == 1 else ast.BoolOp(op=ast.And(), values=parts))
@@ -790,6 +794,7 @@ class F:
                     fam = canon_family(loop.stmt.target, k, st.value, kept, self.x(loop.stmt.iter))
                     if fam is None:
                         return None
+                    fam["nodes"], fam["loop"] = [i], loop.idx
                     out["families"].append(fam)
                 handled.add(i)
             for i, c, b in self.call_sites(f"{v.id}.update(__o)"):
